@@ -520,6 +520,40 @@ def req_C04(r, tier):
             out.append(("ed.msm_pre:n=%d" % n, "ed.msm_pre %s %s %s %s" % (lst(st_s), lst(ps[:k]), lst(ss[k:]), lst(ps[k:]))))
             for c in ("serial", "avx2", "ifma"):
                 out.append(("ed.direct.%s.pre" % c, "ed.direct.%s.pre %s %s %s %s" % (c, lst(st_s), lst(ps[:k]), lst(ss[k:]), lst(ps[k:]))))
+    # structured digit patterns: scalar tuples that SHARE all-zero digit columns (low, high or interior) in every radix -
+    # bucket / window algorithms that special-case empty columns or digits see them only on such tuples, never on random ones
+    def patterns(n):
+        pats = []
+        for k in (4, 6, 8, 16, 64, 128):
+            pats.append(("low%d" % k, [((1 + r.below(L >> k)) << k) % L for _ in range(n)]))
+        pats.append(("pow2", [1 << r.choice([6, 7, 8, 64, 200]) for _ in range(n)]))
+        pats.append(("all64", [64] * n))
+        pats.append(("high", [r.below(1 << 60) for _ in range(n)]))
+        pats.append(("gap", [(x & ~(((1 << 40) - 1) << 100)) % L for x in (r.below(L) for _ in range(n))]))
+        pats.append(("lowgap", [(((1 + r.below(1 << 60)) << 16) | ((1 + r.below(1 << 30)) << 200)) % L for _ in range(n)]))
+        return pats
+    for n in sizes:
+        if n == 0:
+            continue
+        pats = patterns(n)
+        if n > 100:
+            pats = [pats[3], pats[7], pats[r.below(len(pats))], pats[10]]
+        for name, vals in pats:
+            ss = [H(v) for v in vals]
+            ps = [rand_pt() for _ in range(n)]
+            out.append(("ed.msm_vt:digits_%s:n=%d" % (name, n), "ed.msm_vt %s %s" % (lst(ss), lst(ps))))
+            out.append(("ed.msm_opt:digits_%s:n=%d" % (name, n), "ed.msm_opt %s %s" % (lst(ss), lst(ps))))
+            if n <= 200:
+                out.append(("ed.msm_ct:digits_%s" % name, "ed.msm_ct %s %s" % (lst(ss), lst(ps))))
+            for c in ("serial", "avx2", "ifma"):
+                out.append(("ed.direct.%s.pippenger:digits_%s" % (c, name), "ed.direct.%s.pippenger %s %s" % (c, lst(ss), lst(ps))))
+                if n <= 200:
+                    out.append(("ed.direct.%s.straus_vt:digits_%s" % (c, name), "ed.direct.%s.straus_vt %s %s" % (c, lst(ss), lst(ps))))
+                    out.append(("ed.direct.%s.straus_ct:digits_%s" % (c, name), "ed.direct.%s.straus_ct %s %s" % (c, lst(ss), lst(ps))))
+            k = n // 2
+            out.append(("ed.msm_pre:digits_%s" % name, "ed.msm_pre %s %s %s %s" % (lst(ss[:k]), lst(ps[:k]), lst(ss[k:]), lst(ps[k:]))))
+            if n <= 9 or n >= 190:
+                out.append(("ris.msm_vt:digits_%s" % name, "ris.msm_vt %s %s" % (lst(ss), lst([RIS_B] * n))))
     out += exceptional_scalar_mul(r)
     # ladder on arbitrary bit strings
     for i in range(sz(tier, 30, 400)):
@@ -1242,6 +1276,11 @@ def req_C15(r, tier):
     tr = honest_triples(r, 4)
     out.append(("eds.batch:len_mismatch", "eds.batch %s %s %s" % (lst(hx(t[1]) for t in tr[:2]), lst(t[2].hex() for t in tr), lst(t[3].hex() for t in tr[:3]))))
     out.append(("eds.batch:empty", "eds.batch - - -"))
+    # every length triple (messages, signatures, keys) in {0..3}^3: an index into a shorter / EMPTY slice panics
+    for a in range(4):
+        for b in range(4):
+            for c in range(4):
+                out.append(("eds.batch:lens_%d_%d_%d" % (a, b, c), "eds.batch %s %s %s" % (lst(hx(t[1]) for t in tr[:a]), lst(t[2].hex() for t in tr[:b]), lst(t[3].hex() for t in tr[:c]))))
     out.append(("eds.batch:garbage", "eds.batch %s %s %s" % (lst(hx(t[1]) for t in tr), lst(r.bytes(64).hex() for t in tr), lst(t[3].hex() for t in tr))))
     out.append(("eds.batch:Snoncanon", "eds.batch %s %s %s" % (lst(hx(t[1]) for t in tr), lst((t[2][:32] + tole((1 << 256) - 1)).hex() for t in tr), lst(t[3].hex() for t in tr))))
     # batch operations with the exceptional element (zero / identity coset) at EVERY position, incl. first, last, all
